@@ -1,6 +1,7 @@
 """R-REG suites on Spline: evaluation framing (C02), predicates (C15), validity (C10/C11),
 arithmetic framing by dependence sets (C03), operand preservation (C14)."""
 import itertools
+from fractions import Fraction
 
 from .facts import AnalysisBroken
 from .interp import NAN, U64, Arr, Iter, LV, Obj, Opt, Sc, SharedPtr, Vec, box, copy_value, val
@@ -27,7 +28,7 @@ def snap(v, depth=0):
     if isinstance(v, SharedPtr):
         return ("sp", id(v.target)) + ((snap(v.target, depth + 1),) if v.target is not None else ())
     if isinstance(v, Sc):
-        return ("sc", v.v, v.deps)
+        return ("sc", v.v, v.deps, None if v.lin is None else frozenset((k, q) for k, q in v.lin.items() if q != 0))
     if isinstance(v, Opt):
         return ("opt", v.has, snap(v.v) if v.has else None)
     return v if isinstance(v, (int, str)) or v is None else repr(v)
@@ -90,7 +91,7 @@ def eval_suite(chk, w, rule, nmax, orders=(0, 1, 2), ns=None, fixed=True):
         ffront = w.method(cls, "front", 0)
         fback = w.method(cls, "back", 0)
         for n in _ns(2, nmax, ns):
-            grid = w.mk_grid(w.grid_values(n)).v
+            grid = w.need_grid(w.grid_values(n))
             for (s, e) in windows(n):
                 sp = w.spline_on("a", order, grid, s, e)
                 size = e - s
@@ -192,8 +193,8 @@ def predicate_suite(chk, w, rule, nmax, order_pairs=((1, 1), (2, 0), (0, 3)), ns
         cls = w.spline_cls(A)
         f = w.method(cls, "checkOverlap", 1, pred=lambda d: ("Spline<%s, %d>" % (w.T, B)) in d["params"][0]["type"])
         for n in _ns(2, nmax, ns):
-            grid = w.mk_grid(w.grid_values(n)).v
-            grid2 = w.mk_grid(w.grid_values(n)).v
+            grid = w.need_grid(w.grid_values(n))
+            grid2 = w.need_grid(w.grid_values(n))
             for wa in windows(n):
                 a = w.spline_on("a", A, grid, *wa)
                 for wb in windows(n):
@@ -209,7 +210,7 @@ def predicate_suite(chk, w, rule, nmax, order_pairs=((1, 1), (2, 0), (0, 3)), ns
         cls = w.spline_cls(order)
         f = w.method(cls, "isZero", 0)
         for n in ((2, 3, 4,) if fixed else ()):
-            grid = w.mk_grid(w.grid_values(n)).v
+            grid = w.need_grid(w.grid_values(n))
             for (s, e) in windows(n):
                 nint = max(e - s, 1) - 1
                 slots = nint * (order + 1)
@@ -220,8 +221,8 @@ def predicate_suite(chk, w, rule, nmax, order_pairs=((1, 1), (2, 0), (0, 3)), ns
                         continue
                     it = iter(vals)
                     coeffs = Vec([Arr([Sc(next(it)) for _ in range(order + 1)]) for _ in range(nint)])
-                    sup = w.mk_support(grid, s, e).v
-                    sp = w.mk_spline(order, sup, coeffs).v
+                    sup = w.need_support(grid, s, e)
+                    sp = w.need_spline(order, sup, coeffs)
                     o = w.call(f, sp, [])
                     zero = all(v_ == 0 for v_ in vals)
                     cs.expect(f, "isZero <=> no interval, or no stored coefficient compares unequal to zero",
@@ -234,8 +235,8 @@ def predicate_suite(chk, w, rule, nmax, order_pairs=((1, 1), (2, 0), (0, 3)), ns
         fne = w.method(cls, "operator!=", 1)
         for n in ((2, 3, 4,) if fixed else ()):
             vals = w.grid_values(n)
-            grid = w.mk_grid(vals).v
-            grids = [("same-object", grid, True), ("equal-distinct-object", w.mk_grid(vals).v, True)]
+            grid = w.need_grid(vals)
+            grids = [("same-object", grid, True), ("equal-distinct-object", w.need_grid(vals), True)]
             for label, v2 in different_grids(w, n)[:3]:
                 g = w.mk_grid(v2)
                 if g.kind == "val":
@@ -251,7 +252,7 @@ def predicate_suite(chk, w, rule, nmax, order_pairs=((1, 1), (2, 0), (0, 3)), ns
                     sup = w.mk_support(g, *win)
                     if sup.kind != "val":
                         return None
-                    return w.mk_spline(order, sup.v, c).v
+                    return w.need_spline(order, sup.v, c)
 
                 a = mk(grid, wa, False)
                 for label, gb, geq in grids:
@@ -297,13 +298,13 @@ def validity_suite(chk, w, rule, nmax, ns=None, fixed=True):
         gctor = w.ctor(cls, lambda d: len(d["params"]) == 1 and "Grid<" in d["params"][0]["type"], "grid")
         gf = w.I.func(gctor["id"])
         for n in _ns(2, nmax, ns):
-            grid = w.mk_grid(w.grid_values(n)).v
+            grid = w.need_grid(w.grid_values(n))
             o = w.run(lambda: w.I.construct(gctor, [box(grid)]), "Spline(grid)")
             ok = o.kind == "val" and valid_spline(w, o.v, n)[0] and spline_view(w, o.v)[2] == 0
             cs.expect(gf, "Spline(grid) is a valid interval-free spline", dict(order=order, n=n), o, ok,
                       "an empty spline")
             for (s, e) in windows(n):
-                sup = w.mk_support(grid, s, e).v
+                sup = w.need_support(grid, s, e)
                 nint = max(e - s, 1) - 1
                 for k in range(0, n + 1):
                     o = w.mk_spline(order, sup, w.coeffs("a", order, s, k))
@@ -321,12 +322,12 @@ def validity_suite(chk, w, rule, nmax, ns=None, fixed=True):
     if not mctor or not massign:
         raise AnalysisBroken("anchor vanished: Support move constructor / move assignment")
     for n in _ns(2, min(nmax, 4), ns):
-        grid = w.mk_grid(w.grid_values(n)).v
+        grid = w.need_grid(w.grid_values(n))
         for wa in windows(n):
             for wb in windows(n):
                 case = dict(n=n, source=wa, target=wb)
                 # move construction
-                src = w.mk_support(grid, *wa).v
+                src = w.need_support(grid, *wa)
                 o = w.run(lambda: w.I.construct(mctor[0], [box(src)]), "Support(Support&&)")
                 f = w.I.func(mctor[0]["id"])
                 ok = o.kind == "val" and same_window(w.window(o.v), wa) and w.window(src) == (0, 0) and \
@@ -334,8 +335,8 @@ def validity_suite(chk, w, rule, nmax, ns=None, fixed=True):
                 cs.expect(f, "move construction transfers the window; the source becomes the empty support on the same "
                              "grid", case, o, ok, "target=%s, source=(0,0)" % (wa,))
                 # move assignment
-                src = w.mk_support(grid, *wa).v
-                dst = w.mk_support(grid, *wb).v
+                src = w.need_support(grid, *wa)
+                dst = w.need_support(grid, *wb)
                 f = w.I.func(massign[0]["id"])
                 o = w.call(f, dst, [box(src)])
                 ok = o.kind == "val" and same_window(w.window(dst), wa) and w.window(src) == (0, 0) and \
@@ -344,7 +345,7 @@ def validity_suite(chk, w, rule, nmax, ns=None, fixed=True):
                              "grid", case, o, ok, "target=%s, source=(0,0)" % (wa,))
                 # self move-assignment keeps a valid object
                 if wa == wb:
-                    s2 = w.mk_support(grid, *wa).v
+                    s2 = w.need_support(grid, *wa)
                     o = w.call(f, s2, [box(s2)])
                     win = w.window(s2)
                     ok = o.kind == "val" and win is not None and ((win == (0, 0)) or (win[0] < win[1] <= n))
@@ -354,7 +355,7 @@ def validity_suite(chk, w, rule, nmax, ns=None, fixed=True):
         cls = w.spline_cls(order)
         rec = w.I.find_record(cls)
         for n in ((3, 4,) if fixed else ()):
-            grid = w.mk_grid(w.grid_values(n)).v
+            grid = w.need_grid(w.grid_values(n))
             for wa in windows(n):
                 for wb in windows(n):
                     src = w.spline_on("a", order, grid, *wa)
@@ -387,7 +388,7 @@ def _same_grid(w, sup, grid):
 # ------------------------------------------------------------------------------------------------
 # C03 / C14 / C10: arithmetic framing
 # ------------------------------------------------------------------------------------------------
-def _expect_coeffs(view, n, spec, order_out):
+def _expect_coeffs(view, n, spec, order_out, lin_spec=None, mono_spec=None):
     """Compare every coefficient of the result with the dependence specification.
     spec(I, p) -> frozenset of atoms the coefficient of x^p on absolute interval I must depend on
     (empty set: the coefficient must be the constant zero).  Intervals outside the result's support are
@@ -412,7 +413,24 @@ def _expect_coeffs(view, n, spec, order_out):
                     p, I, sorted(x.deps)[:6], sorted(want)[:6])
             if not want and x.v != 0:
                 return False, "coefficient of x^%d on interval %d should be exactly zero" % (p, I)
+            if mono_spec is not None and x.mono is not None:
+                wm = mono_spec(I, p)
+                if wm is not None and x.mono != wm:
+                    from .r_reg_ops import _fmt_mono
+                    return False, "coefficient of x^%d on interval %d is a sum of the products %s, specified %s" % (
+                        p, I, _fmt_mono(x.mono), _fmt_mono(wm))
+            if lin_spec is not None:
+                wl = lin_spec(I, p)
+                got = x.form()
+                if wl is not None and got is not None and got != {k: q for k, q in wl.items() if q != 0}:
+                    return False, "coefficient of x^%d on interval %d is the combination %s, specified %s" % (
+                        p, I, _fmt_lin(got), _fmt_lin(wl))
     return True, ""
+
+
+def _fmt_lin(l):
+    return " + ".join("%s*%s" % (q, "1" if k is None else "%s%s" % (k[1], list(k[2:]))) for k, q in sorted(
+        l.items(), key=lambda kv: str(kv[0]))) or "0"
 
 
 def arithmetic_suite(chk, w, rule, nmax, order_pairs=((1, 1), (2, 1), (1, 2), (0, 2), (3, 0)), ns=None, fixed=True):
@@ -428,8 +446,8 @@ def arithmetic_suite(chk, w, rule, nmax, order_pairs=((1, 1), (2, 1), (1, 2), (0
         fme = w.method(clsA, "operator-=", 1, pred=pb, required=False) if B <= A else None
         fas = w.method(clsA, "operator=", 1, pred=pb, required=False) if B < A else None
         for n in _ns(3, nmax, ns):
-            grid = w.mk_grid(w.grid_values(n)).v
-            grid2 = w.mk_grid(w.grid_values(n)).v
+            grid = w.need_grid(w.grid_values(n))
+            grid2 = w.need_grid(w.grid_values(n))
             for wa in windows(n):
                 for wb in windows(n):
                     for glabel, gb in (("same-object", grid), ("equal-distinct-object", grid2)):
@@ -442,14 +460,15 @@ def arithmetic_suite(chk, w, rule, nmax, order_pairs=((1, 1), (2, 1), (1, 2), (0
                         def fresh():
                             return w.spline_on("a", A, grid, *wa), w.spline_on("b", B, gb, *wb)
 
-                        def check(f, clause, o, a, b, sa, sb, spec, order_out, res=None, target_changes=False):
+                        def check(f, clause, o, a, b, sa, sb, spec, order_out, res=None, target_changes=False,
+                                  lin=None, mono=None):
                             ok, why = False, ""
                             if o.kind == "val":
                                 r = res if res is not None else val(o.v)
                                 if isinstance(r, Obj):
                                     okv, why = valid_spline(w, r, n)
                                     if okv:
-                                        ok, why = _expect_coeffs(spline_view(w, r), n, spec, order_out)
+                                        ok, why = _expect_coeffs(spline_view(w, r), n, spec, order_out, lin, mono)
                             else:
                                 why = repr(o)
                             if ok and not target_changes and snap(a) != sa:
@@ -467,35 +486,70 @@ def arithmetic_suite(chk, w, rule, nmax, order_pairs=((1, 1), (2, 1), (1, 2), (0
                               lambda I, p: frozenset(
                                   x for j in range(A + 1) if 0 <= p - j <= B for x in
                                   (("c", "a", I, j), ("c", "b", I, p - j))) if (ina(I) and inb(I)) else frozenset(),
-                              A + B)
+                              A + B,
+                              mono=lambda I, p: frozenset(
+                                  (("c", "a", I, j), ("c", "b", I, p - j)) for j in range(A + 1) if 0 <= p - j <= B)
+                              if (ina(I) and inb(I)) else frozenset())
                         # sum / difference
                         addspec = lambda I, p: frozenset(
                             ([("c", "a", I, p)] if ina(I) and p <= A else []) +
                             ([("c", "b", I, p)] if inb(I) and p <= B else []))
-                        for f, nm in ((fadd, "a+b"), (fsub, "a-b")):
+                        def linspec(sign):
+                            return lambda I, p: dict(
+                                ([(("c", "a", I, p), 1)] if ina(I) and p <= A else []) +
+                                ([(("c", "b", I, p), sign)] if inb(I) and p <= B else []))
+
+                        for f, nm, sg in ((fadd, "a+b", 1), (fsub, "a-b", -1)):
                             a, b = fresh()
                             sa, sb = snap(a), snap(b)
                             o = w.call(f, a, [box(b)])
-                            check(f, "%s: coefficient k on interval I is built from a_k(I) and b_k(I) where supported, "
-                                     "zero elsewhere" % nm, o, a, b, sa, sb, addspec, max(A, B))
-                        for f, nm in ((fpe, "a+=b"), (fme, "a-=b")):
+                            check(f, "%s: coefficient k on interval I is a_k(I) %s b_k(I) where supported, zero "
+                                     "elsewhere" % (nm, "+" if sg > 0 else "-"), o, a, b, sa, sb, addspec, max(A, B),
+                                  lin=linspec(sg))
+                        for f, nm, sg in ((fpe, "a+=b", 1), (fme, "a-=b", -1)):
                             if f is None:
                                 continue
                             a, b = fresh()
                             sa, sb = snap(a), snap(b)
                             o = w.call(f, a, [box(b)])
                             check(f, "%s: the target denotes the sum/difference afterwards; b unchanged" % nm, o, a, b,
-                                  sa, sb, addspec, A, res=a, target_changes=True)
+                                  sa, sb, addspec, A, res=a, target_changes=True, lin=linspec(sg))
                         if fas is not None:
                             a, b = fresh()
                             sa, sb = snap(a), snap(b)
                             o = w.call(fas, a, [box(b)])
                             check(fas, "assignment from a lower order preserves the function", o, a, b, sa, sb,
                                   lambda I, p: frozenset([("c", "b", I, p)] if inb(I) and p <= B else []), A, res=a,
-                                  target_changes=True)
+                                  target_changes=True,
+                                  lin=lambda I, p: dict([(("c", "b", I, p), 1)] if inb(I) and p <= B else []))
+                    # the same object as both operands (aliasing): a+a = 2a, a-a = 0, a+=a, a-=a
+                    if A == B:
+                        ina = lambda I: wa[0] <= I and I + 1 < wa[1]
+                        case = dict(orders=(A, A), n=n, a=wa, b="the same object")
+                        for f, nm, q, inplace in ((fadd, "a+a", 2, False), (fsub, "a-a", 0, False),
+                                                  (fpe, "a+=a", 2, True), (fme, "a-=a", 0, True)):
+                            if f is None:
+                                continue
+                            a = w.spline_on("a", A, grid, *wa)
+                            sa = snap(a)
+                            o = w.call(f, a, [box(a)])
+                            ok, why = False, repr(o)
+                            if o.kind == "val":
+                                r = a if inplace else val(o.v)
+                                if isinstance(r, Obj):
+                                    ok, why = valid_spline(w, r, n)
+                                    if ok:
+                                        ok, why = _expect_coeffs(
+                                            spline_view(w, r), n,
+                                            lambda I, p: frozenset([("c", "a", I, p)] if ina(I) else []), A,
+                                            lambda I, p: ({("c", "a", I, p): q} if ina(I) else {}))
+                            if ok and not inplace and snap(a) != sa:
+                                ok, why = False, "the operand was modified"
+                            cs.expect(f, "%s with one object as both operands gives %s" % (nm, "2a" if q else "zero"),
+                                      case, o, ok, "(%s)" % why)
         # differing grids: refused, nothing changed
         for n in ((3, 4,) if fixed else ()):
-            grid = w.mk_grid(w.grid_values(n)).v
+            grid = w.need_grid(w.grid_values(n))
             for label, vals in different_grids(w, n):
                 gd = w.mk_grid(vals)
                 if gd.kind != "val":
@@ -533,20 +587,27 @@ def scalar_suite(chk, w, rule, nmax, orders=(0, 2), ns=None, fixed=True):
         ffree = w.free("bspline::operator*", lambda f: len(f.decl["params"]) == 2 and
                        ("Spline<%s, %d>" % (T, A)) in f.decl["params"][1]["type"])
         for n in _ns(2, nmax, ns):
-            grid = w.mk_grid(w.grid_values(n)).v
+            grid = w.need_grid(w.grid_values(n))
             for wa in windows(n):
                 ina = lambda I: wa[0] <= I and I + 1 < wa[1]
-                c = Sc(None, frozenset([("k",)]))
+                c = Sc.atom(("k",))
+                k3 = Sc(3)   # a literal scalar: the scale factor itself is decided
                 with_c = lambda I, p: frozenset([("c", "a", I, p), ("k",)]) if ina(I) else frozenset()
                 plain = lambda I, p: frozenset([("c", "a", I, p)]) if ina(I) else frozenset()
+                scaled = lambda q: (lambda I, p: ({("c", "a", I, p): Fraction(q)} if ina(I) else {}))
                 case = dict(order=A, n=n, a=wa)
-                for f, nm, args, spec, inplace in (
-                        (fm, "a*c", lambda a: (a, [box(c)]), with_c, False),
-                        (fd, "a/c", lambda a: (a, [box(c)]), with_c, False),
-                        (fme, "a*=c", lambda a: (a, [box(c)]), with_c, True),
-                        (fde, "a/=c", lambda a: (a, [box(c)]), with_c, True),
-                        (fneg, "-a", lambda a: (a, []), plain, False),
-                        (ffree, "c*a", lambda a: (None, [box(c), box(a)]), with_c, False)):
+                for f, nm, args, spec, inplace, lin in (
+                        (fm, "a*c", lambda a: (a, [box(c)]), with_c, False, None),
+                        (fd, "a/c", lambda a: (a, [box(c)]), with_c, False, None),
+                        (fme, "a*=c", lambda a: (a, [box(c)]), with_c, True, None),
+                        (fde, "a/=c", lambda a: (a, [box(c)]), with_c, True, None),
+                        (fm, "a*3", lambda a: (a, [box(k3)]), plain, False, scaled(3)),
+                        (fd, "a/3", lambda a: (a, [box(k3)]), plain, False, scaled(Fraction(1, 3))),
+                        (fme, "a*=3", lambda a: (a, [box(k3)]), plain, True, scaled(3)),
+                        (fde, "a/=3", lambda a: (a, [box(k3)]), plain, True, scaled(Fraction(1, 3))),
+                        (ffree, "3*a", lambda a: (None, [box(k3), box(a)]), plain, False, scaled(3)),
+                        (fneg, "-a", lambda a: (a, []), plain, False, scaled(-1)),
+                        (ffree, "c*a", lambda a: (None, [box(c), box(a)]), with_c, False, None)):
                     a = w.spline_on("a", A, grid, *wa)
                     sa = snap(a)
                     this, argv = args(a)
@@ -557,13 +618,58 @@ def scalar_suite(chk, w, rule, nmax, orders=(0, 2), ns=None, fixed=True):
                         if isinstance(r, Obj):
                             ok, why = valid_spline(w, r, n)
                             if ok:
-                                ok, why = _expect_coeffs(spline_view(w, r), n, spec, A)
+                                with_k = spec is with_c
+                                ok, why = _expect_coeffs(
+                                    spline_view(w, r), n, spec, A, lin,
+                                    lambda I, p: (frozenset([tuple(sorted([("c", "a", I, p)] + ([("k",)] if with_k
+                                                                                               else [])))])
+                                                  if ina(I) else frozenset()))
                                 if ok and same_window(spline_view(w, r)[0], wa) is False:
                                     ok, why = False, "support changed"
                     if ok and not inplace and snap(a) != sa:
                         ok, why = False, "operand was modified"
-                    cs.expect(f, "%s scales every coefficient of every interval of a (and nothing else)" % nm, case, o,
-                              ok, "specified dependence (%s)" % why)
+                    cs.expect(f, "%s scales every coefficient of every interval of a by that factor (and nothing else)" % nm,
+                              case, o, ok, "specified dependence (%s)" % why)
+                # the scalar is a reference to one of the spline's own coefficients (aliasing): every coefficient is
+                # scaled by the value that coefficient had BEFORE the operation
+                nint = max(wa[1] - wa[0], 1) - 1
+                if nint >= 1:
+                    for f, nm in ((fme, "a*=a_ij"), (fde, "a/=a_ij"), (fm, "a*a_ij"), (fd, "a/a_ij")):
+                        for (ii, jj) in {(0, 0), (nint - 1, A), (0, A)}:
+                            a = w.spline_on("a", A, grid, *wa)
+                            cv = val(w.mcall(a, "getCoefficients").v)
+                            ref = LV(cv.items[ii].items, jj)
+                            alias_atom = ("c", "a", wa[0] + ii, jj)
+                            o = w.call(f, a, [ref])
+                            inplace = nm[1] in "*/" and nm[2] == "="
+                            ok, why = False, repr(o)
+                            if o.kind == "val":
+                                r = a if inplace else val(o.v)
+                                if isinstance(r, Obj):
+                                    ok, why = valid_spline(w, r, n)
+                                    if ok and nm.startswith("a*"):
+                                        ok, why = _expect_coeffs(
+                                            spline_view(w, r), n,
+                                            lambda I, p: frozenset([("c", "a", I, p), alias_atom]) if ina(I)
+                                            else frozenset(), A, None,
+                                            lambda I, p: frozenset([tuple(sorted([("c", "a", I, p), alias_atom]))])
+                                            if ina(I) else frozenset())
+                                    elif ok:
+                                        ok, why = _expect_coeffs(
+                                            spline_view(w, r), n,
+                                            lambda I, p: frozenset([("c", "a", I, p), alias_atom]) if ina(I)
+                                            else frozenset(), A)
+                                        if ok:
+                                            # division: the divisor is the ORIGINAL coefficient for every entry, so no
+                                            # entry other than the aliased one may have become the constant 1
+                                            view = spline_view(w, r)[1]
+                                            ones = [(I, p) for I, arr in view.items() for p, x in enumerate(arr)
+                                                    if isinstance(x, Sc) and x.v == 1 and (I, p) != (wa[0] + ii, jj)]
+                                            if ones:
+                                                ok, why = False, "coefficient %s became 1" % (ones[0],)
+                            cs.expect(f, "%s with the scalar referring to one of a's own coefficients scales every "
+                                         "coefficient by that coefficient's original value" % nm,
+                                      dict(order=A, n=n, a=wa, scalar="a[%d][%d]" % (ii, jj)), o, ok, "(%s)" % why)
     return cs.flush()
 
 
@@ -575,7 +681,7 @@ def lincomb_suite(chk, w, rule, nmax, order=1, ns=None, fixed=True):
     fiter = w.free("bspline::linearCombination", lambda f: len(f.decl["params"]) == 4 and
                    ("Spline<%s, %d>" % (T, order)) in f.decl["params"][2]["type"])
     for n in _ns(3, nmax, ns):
-        grid = w.mk_grid(w.grid_values(n)).v
+        grid = w.need_grid(w.grid_values(n))
         ws = windows(n)
         combos = [(a,) for a in ws] + [(a, b) for a in ws for b in ws]
         if n <= 4:
@@ -586,7 +692,7 @@ def lincomb_suite(chk, w, rule, nmax, order=1, ns=None, fixed=True):
         for wins in combos:
             names = ["s%d" % i for i in range(len(wins))]
             splines = Vec([w.spline_on(nm, order, grid, *wn) for nm, wn in zip(names, wins)])
-            ks = Vec([Sc(None, frozenset([("k", i)])) for i in range(len(wins))])
+            ks = Vec([Sc.atom(("k", i)) for i in range(len(wins))])
             before = snap(splines)
 
             def spec(I, p):
@@ -597,6 +703,10 @@ def lincomb_suite(chk, w, rule, nmax, order=1, ns=None, fixed=True):
                         out.add(("k", i))
                 return frozenset(out)
 
+            def mspec(I, p):
+                return frozenset(tuple(sorted([("c", names[i], I, p), ("k", i)])) for i, wn in enumerate(wins)
+                                 if wn[0] <= I and I + 1 < wn[1])
+
             case = dict(order=order, n=n, windows=list(wins))
             for f, argv in ((fcoll, [box(ks), box(splines)]),
                             (fiter, [Iter(ks, 0), Iter(ks, len(wins)), Iter(splines, 0), Iter(splines, len(wins))])):
@@ -606,7 +716,7 @@ def lincomb_suite(chk, w, rule, nmax, order=1, ns=None, fixed=True):
                     r = val(o.v)
                     ok, why = valid_spline(w, r, n)
                     if ok:
-                        ok, why = _expect_coeffs(spline_view(w, r), n, spec, order)
+                        ok, why = _expect_coeffs(spline_view(w, r), n, spec, order, None, mspec)
                 if ok and snap(splines) != before:
                     ok, why = False, "an operand was modified"
                 cs.expect(f, "linearCombination: coefficient k on interval I is built from c_i and S_i's coefficient k "
@@ -616,7 +726,7 @@ def lincomb_suite(chk, w, rule, nmax, order=1, ns=None, fixed=True):
         for nc in range(0, 4):
             for ns in range(0, 4):
                 splines = Vec([w.spline_on("s%d" % i, order, grid, 0, n) for i in range(ns)])
-                ks = Vec([Sc(None, frozenset([("k", i)])) for i in range(nc)])
+                ks = Vec([Sc.atom(("k", i)) for i in range(nc)])
                 good = nc == ns and nc >= 1
                 for f, argv in ((fcoll, [box(ks), box(splines)]),
                                 (fiter, [Iter(ks, 0), Iter(ks, nc), Iter(splines, 0), Iter(splines, ns)])):
@@ -636,7 +746,7 @@ def lincomb_suite(chk, w, rule, nmax, order=1, ns=None, fixed=True):
                     sp = [w.spline_on("s%d" % i, order, grid, 0, n) for i in range(3)]
                     sp[pos] = w.spline_on("bad", order, gd.v, *wbad)
                     splines = Vec(sp)
-                    ks = Vec([Sc(None, frozenset([("k", i)])) for i in range(3)])
+                    ks = Vec([Sc.atom(("k", i)) for i in range(3)])
                     o = w.call(fcoll, None, [box(ks), box(splines)])
                     cs.expect(fcoll, "a collection containing a spline on a different grid is refused with "
                                      "DIFFERING_GRIDS", dict(n=n, other_grid=label, position=pos, window=wbad), o,
